@@ -241,3 +241,59 @@ def all_shorthand_obligations():
                 o.goal = 'recorded faces: %r' % (calls,)
             obs.append(o)
     return obs, None
+
+
+def multipatch_bc_obligations():
+    """Multipatch.compute_dirichlet_bcs: for EVERY condition (p, bdspec, g) in the list the local indices are mapped through the patch-to-global
+    table of ITS OWN patch p -- checked for all sequences of patches of length <= 4 over three patches (every revisit pattern of the cache);
+    the conditions are combined in the given order"""
+    import itertools
+    src = frontend.load(F)
+    fn = src.find('Multipatch.compute_dirichlet_bcs')
+    obs = []
+    from pyvc.values import VOpaque, VTuple, Ref, ListContent, ObjContent
+    npatch = 3
+    bad = []
+    nseq = 0
+    for L in (1, 2, 3, 4):
+        for seq in itertools.product(range(npatch), repeat=L):
+            nseq += 1
+            combined = []
+
+            def rec_bc(ex, st, call, kvs, geo, bdspec, g, **k):
+                tag = 'bc[%s|%s|%s]' % (getattr(kvs, 'what', kvs), getattr(bdspec, 'what', bdspec), getattr(g, 'what', g))
+                return VTuple((VOpaque('I:' + tag), VOpaque('V:' + tag)))
+
+            def rec_p2g(ex, st, call, p, **k):
+                return VOpaque('G%s' % (p,))
+
+            def rec_combine(ex, st, call, bcs, **k):
+                items = st.heap[bcs.id].items if isinstance(bcs, Ref) else list(bcs)
+                for it in items:
+                    combined.append((getattr(it[0], 'what', repr(it[0])), getattr(it[1], 'what', repr(it[1]))))
+                return VOpaque('combined')
+
+            def init(ex, st):
+                me = Ref('self')
+                patches = Ref('patches')
+                st.heap[patches.id] = ListContent([VTuple((VOpaque('kvs%d' % q), VOpaque('geo%d' % q))) for q in range(npatch)])
+                st.heap[me.id] = ObjContent({'patches': patches})
+                st.env['self'] = me
+                conds = Ref('bdconds')
+                st.heap[conds.id] = ListContent([VTuple((p, VOpaque('face%d' % k), VOpaque('g%d' % k))) for k, p in enumerate(seq)])
+                st.env['bdconds'] = conds
+            c = Contract(F, 'Multipatch.compute_dirichlet_bcs', name='assemble:Multipatch.compute_dirichlet_bcs',
+                         callees={'compute_dirichlet_bc': rec_bc, 'self.patch_to_global_idx': rec_p2g, 'combine_bcs': rec_combine})
+            ex = Executor(fn, c)
+            obs += ex.run(init=init)
+            want = [('subscript of G%d' % p, 'V:bc[kvs%d|face%d|g%d]' % (p, k, k)) for k, p in enumerate(seq)]
+            if combined != want:
+                bad.append('patch sequence %r: combined %r, expected %r' % (seq, combined[:4], want[:4]))
+    o = Obligation('assemble:Multipatch.compute_dirichlet_bcs:post:own-patch-map', 'post', fn.lineno, [], None,
+                   'for all %d patch sequences of length <= 4 over 3 patches: condition k is evaluated on the knot vectors/geometry of its patch and its local '
+                   'indices go through patch_to_global_idx of the same patch; conditions are combined in order' % nseq, src='def compute_dirichlet_bcs')
+    o.status, o.backend, o.time = ('proved' if not bad else 'refuted'), 'symbolic-execution (recorded calls)', 0.0
+    if bad:
+        o.goal = '; '.join(bad[:2])
+    obs.append(o)
+    return obs, None
